@@ -295,6 +295,7 @@ SEARCHES = [["$SB/root"], ["$SB/root"], ["$SB/root", "$SB/root2"], ["$SB/root2",
 
 
 def name_class(name: str) -> str:
+    name = name.replace("$SB", "/tmp/c22sb")
     if "\x00" in name:
         return "nul"
     if name.startswith("/"):
